@@ -28,6 +28,7 @@ func main() {
 		{"defaults", genDefaults},
 		{"handlers", genHandlers},
 		{"shipped", genShipped},
+		{"sanfacts", genSanFacts},
 	}
 	for _, g := range gens {
 		if *only == "" || *only == g.name {
